@@ -570,7 +570,7 @@ def walk_no_nested(node):
             continue
         first = False
         yield n
-        todo.extend(ast.iter_child_nodes(n))
+        todo.extend(reversed(list(ast.iter_child_nodes(n))))
 
 
 def calls_in(node, include_nested=False):
